@@ -119,6 +119,8 @@ NEEDS = {
  "C13-6": ("readyDispatcher returns the migration error, so Publish stops at the first listener", "failed migration with more than one OnReady listener"),
  "C18-5": ("Start advances the ID counter to the largest stored transfer ID, remote-chosen ones included", "stored channel whose remote initiator chose an ID near 2^64"),
  "C18-6": ("acceptRequest continues when CreateNew fails and the existing channel is still Requested with the same base CID", "duplicate new request arriving between CreateNew and Accept of the original"),
+ "C20-5": ("ChannelSubscriptions.Stop unsubscribes while holding subscriptionsLk", "Stop overlapping with the delivery of an event (publisher holds the pubsub read lock and needs subscriptionsLk)"),
+ "C20-6": ("ChannelsForPeer looks the channel up through getDTChannel (a second RLock of dtChannelsLk) inside its own RLock", "a writer (trackDTChannel / CleanupChannel) arriving between the two read locks"),
  "C19-2": ("NewVoucher restricted to a hand-built status list that omits ResponderFinalizingTransferFinished", "SendVoucher while the initiator is in ResponderFinalizingTransferFinished"),
 }
 NOT_CAUGHT={"C17-5":"the per-transfer subscriber misses Error / CleanupComplete only because the real notifier delivers them asynchronously, after the unsubscribe; the synchronous model delivers them inside channels.Error, before the unsubscribe runs - notification timing relative to the caller is declared outside the claim under C17","C09-6":"the re-run of the cleanup entry function needs an event to arrive in the window between entering Cancelling/Failing/Completing and CleanupComplete, which only exists in the asynchronous go-statemachine queue (the synchronous model finishes the cleanup before the next event); the unchanged tree has the same re-entry for the events that are already FromAny().ToNoChange() (DataReceived, Disconnected, ...), so this window is declared outside the claim under C09","C17-3":"needs the asynchronous notification queue of go-statemachine (a subscriber slower than 5 s lets the next notification overtake); the synchronous model group delivers notifications inside Send, so ordering under slow subscribers is declared outside the claim"}
@@ -153,7 +155,7 @@ for key,(what,needs) in sorted(NEEDS.items()):
     if key=="C20-2":
         meta["demo_needs_race_detector"]=True
         meta["confirmed_by_me"]["commands"]=[c.replace("go test -vet=off","go test -race -vet=off") if "demo" in c else c for c in meta["confirmed_by_me"]["commands"]]
-    meta["round"]=1 if int(k)<=2 or p=="C20" else (2 if int(k)<=4 else 3)
+    meta["round"]=1 if int(k)<=2 or (p=="C20" and int(k)<=3) else (2 if int(k)<=4 else 3)
     json.dump(meta,open(f"{out}/meta.json","w"),indent=1)
     n+=1
 print("kept",n)
